@@ -3,6 +3,7 @@
 //
 //   stream <seed|default> <n>             o0 o1 o2 o3 o(n-1) fold           engine object
 //   vstream <seed32> <n>                  same, through vita::random::seed + vita::random::engine
+//   geq <A> <B>                           equal|different same4|diff4   operator== and the next four outputs
 //   save <seed> <k>                       text <state text, blanks as _>
 //   load <seedB> <j> <hex text> <n>       ok|fail|oob <state text> <o0 … o(n-1)>
 //   roundtrip <seedA> <k> <seedB> <j> <n> same | diff <pos> | fail | oob [diff <pos>]
@@ -235,6 +236,16 @@ std::string answer(const std::vector<std::string> &t)
   {
     vita::random::seed(std::stoul(t[1]));
     return stream_answer(vita::random::engine, std::stoul(t[2]));
+  }
+  if (t.size() == 3 && t[0] == "geq")
+  {
+    auto *a(make(0, t[1])), *b(make(1, t[2]));
+    const bool eq(*a == *b), ne(*a != *b);
+    bool same4(true);
+    for (int i(0); i < 4; ++i)
+      if ((*a)() != (*b)()) same4 = false;
+    return std::string(eq ? "equal" : "different") + (eq == ne ? " !=-inconsistent" : "")
+           + (same4 ? " same4" : " diff4");
   }
   if (t.size() == 3 && t[0] == "save")
   {
